@@ -687,3 +687,84 @@ mod tests {
         ));
     }
 }
+
+/// Accessors for `crate::verif_hooks::{c22, c23}` (verification hooks only).
+///
+/// The items of this module are private to `remote_state`; these wrappers expose
+/// them through plain types without changing any visibility.
+#[cfg(feature = "verif-hooks")]
+pub(crate) mod verif {
+    use super::*;
+
+    pub(crate) const MAX_NON_RELAY_PATHS: usize = super::MAX_NON_RELAY_PATHS;
+    pub(crate) const MAX_INACTIVE_NON_RELAY_PATHS: usize = super::MAX_INACTIVE_NON_RELAY_PATHS;
+
+    /// Status code of a path: 0 open, 1 inactive (with close time), 2 unusable, 3 unknown.
+    fn status_code(s: &PathStatus) -> (u8, Option<Instant>) {
+        match s {
+            PathStatus::Open => (0, None),
+            PathStatus::Inactive(t) => (1, Some(*t)),
+            PathStatus::Unusable => (2, None),
+            PathStatus::Unknown => (3, None),
+        }
+    }
+
+    /// A bare path map, as `prune_non_relay_paths` takes it.
+    pub(crate) struct Paths(FxHashMap<transports::Addr, PathState>);
+
+    impl Paths {
+        pub(crate) fn new() -> Self {
+            Self(FxHashMap::default())
+        }
+
+        /// Same construction as the unit tests' `path_state_inactive` / `path_state_unusable`.
+        pub(crate) fn insert(&mut self, addr: transports::Addr, status: u8, closed: Instant) {
+            let status = match status {
+                0 => PathStatus::Open,
+                1 => PathStatus::Inactive(closed),
+                2 => PathStatus::Unusable,
+                _ => PathStatus::Unknown,
+            };
+            self.0.insert(
+                addr,
+                PathState {
+                    sources: HashMap::new(),
+                    status,
+                },
+            );
+        }
+
+        /// The entries in the map's current iteration order.
+        pub(crate) fn entries(&self) -> Vec<(transports::Addr, u8, Option<Instant>)> {
+            self.0
+                .iter()
+                .map(|(a, s)| {
+                    let (c, t) = status_code(&s.status);
+                    (a.clone(), c, t)
+                })
+                .collect()
+        }
+
+        pub(crate) fn prune(&mut self) {
+            prune_non_relay_paths(&mut self.0);
+        }
+    }
+
+    /// The entries of a [`RemotePathState`] in the map's current iteration order (C22).
+    pub(in crate::socket::remote_map::remote_state) fn entries_of(
+        s: &RemotePathState,
+    ) -> Vec<(transports::Addr, u8, Option<Instant>)> {
+        s.paths
+            .iter()
+            .map(|(a, st)| {
+                let (c, t) = status_code(&st.status);
+                (a.clone(), c, t)
+            })
+            .collect()
+    }
+
+    /// Number of queued resolve requests of a [`RemotePathState`] (C22).
+    pub(in crate::socket::remote_map::remote_state) fn pending_len_of(s: &RemotePathState) -> usize {
+        s.pending_resolve_requests.len()
+    }
+}
